@@ -244,3 +244,14 @@ def p_at_loop(I, args, kwargs, node):
 
 
 PRIMS['at_loop'] = p_at_loop
+
+
+from .values import VList  # noqa: E402
+
+
+def p_yielded(I, args, kwargs, node):
+    """the values the generator under verification has yielded on this path, in order"""
+    return VList(list(I.ghost.get('yielded', [])))
+
+
+PRIMS['yielded'] = p_yielded
